@@ -230,6 +230,25 @@ class Model:
                 except RecursionError:
                     continue
                 self._replace(mod, f, new)
+                self._normalise_nested(mod, f, normalize)
+
+    def _normalise_nested(self, mod, parent, normalize):
+        for name, g in list(parent.nested.items()):
+            try:
+                new = normalize.normalize_function(self, g)
+            except RecursionError:
+                continue
+            # splice the normalised nested definition into the parent's (already copied) tree
+            for holder in ast.walk(parent.node):
+                for field in ('body', 'orelse', 'finalbody'):
+                    blk = getattr(holder, field, None)
+                    if isinstance(blk, list):
+                        for i, s in enumerate(blk):
+                            if s is g.node:
+                                blk[i] = new
+            self._replace(mod, g, new)
+            parent.nested[name] = g
+            self._normalise_nested(mod, g, normalize)
 
     def _replace(self, mod, f, node):
         f.orig = f.node
